@@ -37,6 +37,8 @@ def plan(tier, seed):
     for i in range(6):
         shards.append({'name': 'nm_%d' % i, 'kind': 'nm', 'N': 30 if tier == 'quick' else 60,
                        'combos': combos[i::6]})
+    shards.append({'name': 'seq', 'kind': 'seq', 'n': 250 if tier == 'quick' else 3000,
+                   'seed': seed * 1000 + 6})
     S = 4 if tier == 'quick' else 5
     shards.append({'name': 'w2_a', 'kind': 'w2', 'S': S, 'part': 0, 'parts': 2})
     shards.append({'name': 'w2_b', 'kind': 'w2', 'S': S, 'part': 1, 'parts': 2})
@@ -69,6 +71,17 @@ def materialise(case):
 
 def run_case(case, rec, ssj=None, views=None):
     ssj = ssj or env.load()
+    if case['gen'] == 'seq':
+        from rv.checks import seq
+
+        def judge(df, call, rec_, step):
+            st = oracle.check_set_join(df, call, T.JOIN_MEASURE[call['api']], rec_, DECIDE,
+                                       case=dict(case, step=step), tag='[sequence step %d] ' % step)
+            st['output_rows'] = len(df)
+            for k, v in st.items():
+                rec_.count(k, v)
+        seq.run_sequence(ssj, random.Random(case['seed']), rec, judge)
+        return {'scores_checked': 1}
     call = materialise(case)
     measure = T.JOIN_MEASURE[call['api']]
     try:
@@ -115,6 +128,13 @@ def run_shard(shard, rec):
                             'comp_op': call['comp_op'], 'l_out_attrs': call['l_out_attrs'],
                             'r_out_attrs': call['r_out_attrs'], 'n_jobs': call['n_jobs'],
                             'left_values': T.column(call['ltable'], 'lattr')[:5]}, limit=1)
+    elif kind == 'seq':
+        for i in range(shard['n']):
+            sd = shard['seed'] * 100000 + i
+            run_case({'gen': 'seq', 'seed': sd}, rec, ssj)
+            rec.case(sig=('seq', sd), nontrivial=True)
+        rec.sample({'workload': 'SEQ', 'note': 'joins in one process sharing a re-configured tokenizer'},
+                   limit=1)
     elif kind == 'nm':
         for (m, t) in shard['combos']:
             for op in ('>=', '>', '='):
